@@ -178,6 +178,10 @@ def candidate_stream(rng, n, length):
     b = rng.standard_normal(n)
     x = rng.standard_normal(n)
     mode_w = rng.dirichlet(np.ones(5))
+    if rng.random() < 0.3:
+        # objective in other units (weights of 1e12, variables in micro-units, ...): the matrix scales with it, nothing else changes
+        sc = float(10.0 ** rng.uniform(-13, 13))
+        A, Aind, b = A * sc, Aind * sc, b * sc
 
     def grad(x, which):
         return (A if which == 0 else Aind) @ x - b
@@ -202,7 +206,7 @@ def candidate_stream(rng, n, length):
             g = g - np.abs(rng.normal()) * s + 0.01 * rng.standard_normal(n)
         else:  # tiny curvature relative to y.y (still far from the eps threshold)
             s = rng.standard_normal(n) * 1e-3
-            y = rng.standard_normal(n)
+            y = rng.standard_normal(n) * float(np.linalg.norm(g) / np.sqrt(n) + 1e-300)
             y = y - (y @ s) / (s @ s) * s + float(np.exp(rng.uniform(-8, -2))) * s / (s @ s)
             x = x + s
             g = g + y
@@ -246,6 +250,11 @@ def run_direct(spec, out):
         try:
             ret = update_lbfgs_matrices(xk.copy(), gk.copy(), X, G, maxcor, mats, False, eps)
         except Exception as e:
+            if len(pre_X) > n:
+                # more pairs than variables after this candidate: theta*S^T S + L D^-1 L^T is singular in exact arithmetic,
+                # its Cholesky factorisation succeeds or fails on rounding noise (outside the statement's SPD premise)
+                out.count("update_raised_with_more_pairs_than_variables")
+                break
             out.violate("update_raised", f"direct n={n} maxcor={maxcor} candidate {k}: update_lbfgs_matrices raised {e!r}", source="direct")
             break
         c0 = (out.counters.get("rejected", 0), out.counters.get("evictions", 0))
